@@ -142,7 +142,19 @@ fn outcome_json(o: &report::Outcome) -> Value {
 }
 
 fn build_settings(variant: usize) -> c2pa::Result<Value> {
-    let s = match variant % 4 {
+    let s = match variant % 5 {
+        4 => {
+            // settings overlaid from a file (json or toml) on top of a value set with with_value
+            let dir = tempfile::tempdir().map_err(c2pa::Error::IoError)?;
+            let (name, text) = if variant % 2 == 0 {
+                ("s.json", r#"{"core": {"merkle_tree_max_proofs": 13}, "builder": {"thumbnail": {"long_edge": 91}}}"#.to_string())
+            } else {
+                ("s.toml", "[core]\nmerkle_tree_max_proofs = 13\n[builder.thumbnail]\nlong_edge = 91\n".to_string())
+            };
+            let p = dir.path().join(name);
+            std::fs::write(&p, text).map_err(c2pa::Error::IoError)?;
+            Settings::new().with_value("verify.remote_manifest_fetch", false)?.with_file(&p)?
+        }
         0 => Settings::new().with_json(r#"{"verify": {"verify_trust": false, "verify_after_sign": false}, "core": {"merkle_tree_max_proofs": 11}}"#)?,
         1 => Settings::new().with_toml("[core]\nmerkle_tree_chunk_size_in_kb = 64\n[builder.thumbnail]\nenabled = false\n")?,
         2 => Settings::new().with_value("core.merkle_tree_max_proofs", 3)?.with_value("verify.remote_manifest_fetch", false)?.with_value("builder.thumbnail.long_edge", 77)?,
@@ -315,7 +327,7 @@ fn gen_history(rng: &mut Rng, id: u64, inp: &Inputs) -> History {
                 5..=9 => OpK::Read(rng.usize(inp.signed.len())),
                 10..=13 => OpK::AddIngredient(rng.usize(inp.signed.len())),
                 14..=15 => OpK::SignerFirstUse,
-                16..=17 => OpK::BuildSettings(rng.usize(4)),
+                16..=17 => OpK::BuildSettings(rng.usize(10)),
                 18..=19 => OpK::Reconfigure(rng.usize(N_PROFILES), rng.usize(N_PROFILES), rng.usize(inp.signed.len())),
                 _ => OpK::Cancel(rng.usize(n_ctx)),
             };
